@@ -1922,6 +1922,27 @@ def _is_read_after_loop(names: Collection[str], loop: ast.AST, root: ast.AST) ->
     return False
 
 
+def _is_in_class_body(loop: ast.AST, root: ast.AST) -> bool:
+    """Is loop a statement of a class body (not of a method)?
+
+    Such a loop cannot become a comprehension: its variables are class attributes afterwards, and
+    a comprehension is a function scope of its own, where the names that the class body binds are
+    not visible (only the iterable of the first for clause is evaluated in the class body)."""
+
+    def start(node):
+        return (node.lineno, node.col_offset)
+
+    def end(node):
+        return (node.end_lineno, node.end_col_offset)
+
+    scopes = [
+        node
+        for node in core.walk(root, (ast.FunctionDef, ast.AsyncFunctionDef, ast.ClassDef))
+        if node is not loop and start(node) <= start(loop) and end(loop) <= end(node)
+    ]
+    return isinstance(max(scopes, key=start, default=root), ast.ClassDef)
+
+
 def _is_name_assigned(name: str, root: ast.AST) -> bool:
     """Is name (a builtin) given another meaning anywhere in root?"""
     template = (
@@ -1982,6 +2003,9 @@ def replace_for_loops_with_dict_comp(source: str) -> str:
         # The comprehension is evaluated before target is assigned, while the loop sees what it has
         # collected so far: nothing in the loop may mention target.
         if _is_read_in(target, [body_node.targets[0].slice, body_node.value, *generators]):
+            continue
+
+        if _is_in_class_body(n2, root):
             continue
 
         if _is_read_after_loop(_names_in(*(comp.target for comp in generators)), n2, root):
@@ -2069,6 +2093,9 @@ def replace_for_loops_with_set_list_comp(source: str) -> str:
         else:
             continue
         if _is_read_in(target, evaluated):
+            continue
+
+        if _is_in_class_body(n2, root):
             continue
 
         if _is_read_after_loop(_names_in(*(comp.target for comp in generators)), n2, root):
@@ -2183,6 +2210,8 @@ def replace_nested_loops_with_set_list_comp(source: str) -> str:
                 # ... so the loop cannot depend on what the container was in the previous iteration
                 if _is_read_in(m.container.id, [m.expression, *generators]):
                     continue
+            if _is_in_class_body(outermost_for, root):
+                continue
             if _is_read_after_loop(bound_names, outermost_for, root):
                 continue
 
@@ -3504,7 +3533,9 @@ def replace_setcomp_add_with_union(source: str) -> str:
             continue
 
         loop = next(node for node in core.walk(root, ast.For) if node.target is template_match.target)
-        if _is_read_after_loop(_names_in(loop.target), loop, root):
+        if _is_in_class_body(loop, root) or _is_read_after_loop(
+            _names_in(loop.target), loop, root
+        ):
             continue
 
         if isinstance(template_match.root, ast.BinOp):
@@ -3560,7 +3591,9 @@ def replace_listcomp_append_with_plus(source: str) -> str:
             continue
 
         loop = next(node for node in core.walk(root, ast.For) if node.target is template_match.target)
-        if _is_read_after_loop(_names_in(loop.target), loop, root):
+        if _is_in_class_body(loop, root) or _is_read_after_loop(
+            _names_in(loop.target), loop, root
+        ):
             continue
 
         if isinstance(template_match.root, ast.BinOp):
